@@ -603,6 +603,12 @@ class StateMachine:
                 self.done()
 
                 if self.__should_engage:
+                    # restart the clock at the expiry instant so that the
+                    # next cycle is timed exactly like the first one
+                    self.__start += new_state_start
+                    self.__engaged = True
+                    tm = now - self.__start
+                    new_state_start = 0
                     self.next_state(self.__first)
                     state = self.__state
                 else:
